@@ -79,7 +79,18 @@ func genRCValue(width uint64) *rapid.Generator[*big.Int] {
 		} else {
 			anchors = []*big.Int{big.NewInt(0), pow2(uint(width) - 1), pow2(uint(width)), pow2(uint(width) + 1), pow2(uint(width) + 15), bigP, pow2(64), bigR}
 		}
-		switch rapid.IntRange(0, 3).Draw(t, "vkind") {
+		switch rapid.IntRange(0, 4).Draw(t, "vkind") {
+		case 4:
+			// field fractions y / 2^k mod r with a small numerator: what a check of a scaled value
+			// (x * 2^k < 2^(n+k)) or a wrapped limb recomposition would accept
+			k := rapid.SampledFrom([]int{1, 2, 7, 8, 15, 16, 24, 31, 32, 48, 64}).Draw(t, "k")
+			if width%16 != 0 && rapid.Bool().Draw(t, "pad") {
+				k = int(16 - width%16)
+			}
+			y := genBigBelow(pow2(uint(rapid.IntRange(1, 40).Draw(t, "ybits")))).Draw(t, "y")
+			y.Add(y, big.NewInt(1))
+			x := new(big.Int).Mul(y, new(big.Int).ModInverse(pow2(uint(k)), bigR))
+			return x.Mod(x, bigR)
 		case 0, 1:
 			a := rapid.SampledFrom(anchors).Draw(t, "anchor")
 			d := int64(rapid.IntRange(-2, 2).Draw(t, "delta"))
@@ -387,7 +398,7 @@ func gnarkWidthCriticalSizes(w, padKind int, plonk bool, max int) []int {
 func TestC06(t *testing.T) {
 	r := rec.New("C06")
 	defer r.Flush()
-	r.Rule("value v (anchors 0, 2^16, 2^32, 2^48, 2^63, 2^64-2^32, p, 2^64, 2^n-1.., r with offsets -2..2; random of every bit length; random inside the range) x gadget {RangeCheck, RangeCheckWithMaxBits(n), n in 1..64,96,128,144,192} x configuration {engine: native / plain / commit(padded to 70k checks), each also with USE_BIT_DECOMPOSITION_RANGE_CHECK; compiled R1CS and SCS built for native-range-checker wrapper / commit / forced bits; gnark test engine}; out-of-range values are also tried with dishonest limb hints and a dishonest bit-decomposition hint; 'populations': one w-bit check (w in 16,32,48,64) plus 0..72000 padding checks compiled for R1CS and SCS under the commit checker - circuits the chip refuses are counted, circuits that compile must be exact at 2^w-1, 2^(w+j), 2^(w+j)+1; sizes are rapid-drawn and additionally swept with one size per geometric bucket of ratio 1.15 (thorough 1.04) per builder and padding kind, and at every size where gnark's limb-width optimiser (cost formulas re-implemented from gnark's source) changes its choice or is tied, +-1.  Oracle: accepted <=> v < p (resp. v < 2^n); commit-mode widths not multiple of 16 may be refused.  Non-trivial = value within 2 of a range/field boundary or a dishonest hint; distinct = (v, n, configuration, hint).")
+	r.Rule("value v (anchors 0, 2^16, 2^32, 2^48, 2^63, 2^64-2^32, p, 2^64, 2^n-1.., r with offsets -2..2; random of every bit length; random inside the range; field fractions y/2^k mod r with small y) x gadget {RangeCheck, RangeCheckWithMaxBits(n), n in 1..64,96,128,144,192} x configuration {engine: native / plain / commit(padded to 70k checks), each also with USE_BIT_DECOMPOSITION_RANGE_CHECK; compiled R1CS and SCS built for native-range-checker wrapper / commit / forced bits; gnark test engine}; out-of-range values are also tried with dishonest limb hints and a dishonest bit-decomposition hint; 'populations': one w-bit check (w in 16,32,48,64) plus 0..72000 padding checks compiled for R1CS and SCS under the commit checker - circuits the chip refuses are counted, circuits that compile must be exact at 2^w-1, 2^(w+j), 2^(w+j)+1; sizes are rapid-drawn and additionally swept with one size per geometric bucket of ratio 1.15 (thorough 1.04) per builder and padding kind, and at every size where gnark's limb-width optimiser (cost formulas re-implemented from gnark's source) changes its choice or is tied, +-1.  Oracle: accepted <=> v < p (resp. v < 2^n); commit-mode widths not multiple of 16 may be refused.  Non-trivial = value within 2 of a range/field boundary or a dishonest hint; distinct = (v, n, configuration, hint).")
 	r.Assume("gnark v0.9.1 builders/solver and std/rangecheck as shipped", "the native-range-checker builder wrapper implements Check by bit decomposition inside the wrapped builder")
 
 	var rp c06Replay
@@ -517,7 +528,8 @@ func TestC06(t *testing.T) {
 			bnd = []*big.Int{new(big.Int).Sub(bigP, big.NewInt(1)), bigP, new(big.Int).Add(bigP, big.NewInt(1)), new(big.Int).Sub(pow2(64), big.NewInt(1)), pow2(64)}
 		} else {
 			al := uint(16 * ((k.width + 15) / 16))
-			bnd = []*big.Int{new(big.Int).Sub(pow2(uint(k.width)), big.NewInt(1)), pow2(uint(k.width)), new(big.Int).Add(pow2(uint(k.width)), big.NewInt(1)), new(big.Int).Sub(pow2(al), big.NewInt(1)), pow2(al), new(big.Int).Sub(bigR, big.NewInt(1))}
+			bnd = []*big.Int{new(big.Int).Sub(pow2(uint(k.width)), big.NewInt(1)), pow2(uint(k.width)), new(big.Int).Add(pow2(uint(k.width)), big.NewInt(1)), new(big.Int).Sub(pow2(al), big.NewInt(1)), pow2(al), new(big.Int).Sub(bigR, big.NewInt(1)),
+				new(big.Int).ModInverse(pow2(al-uint(k.width)+16*uint((16-(al-uint(k.width)))/16)), bigR), new(big.Int).ModInverse(pow2(16), bigR)}
 		}
 		for _, v := range bnd {
 			v := v
